@@ -69,12 +69,14 @@ CLAIMS = {
             'Indivisibility of the hardware/LLVM/Cranelift primitive is trusted, not proved.'),
     'C19': ('proof', 'Theorems C19_*: gather_bytes, the byte count returned by bpf_trace_printf (= 29 + hex digits, stdout captured in the correspondence) and '
             'the range reduction of rand are regenerated from helpers.rs and proved for all arguments (no panic; min <= r <= max); memfrob involution and '
-            'strcmp zero-iff on byte-string models. PARTIAL for sqrti: modelled with Flocq binary64 and compared on a grid with the code and with Z.sqrt below '
-            '2^52; the exactness statement is not proved.',
-            'Flocq\'s development depends on the standard-library axioms sig_forall_dec, sig_not_dec, functional_extensionality_dep, classic (sqrti sample evaluation only).'),
+            'strcmp zero-iff on byte-string models. Theorem C19_sqrti_exact: `(x as f64).sqrt() as u64`, modelled with Flocq\'s IEEE-754 binary64 (conversion, correctly '
+            'rounded square root, truncation; the model is compared with the code on a grid), is the exact integer square root Z.sqrt x for every x below 2^52.',
+            'C19_sqrti_exact depends on the standard-library axioms sig_forall_dec, sig_not_dec (classical Dedekind reals), functional_extensionality_dep and classic, through Flocq and Reals; '
+            'the Flocq model of f64 is hand-written and tied to the code by the correspondence.'),
     'C20': ('proof', 'PARTIAL. Theorems C20_jit_memory_size / C20_no_std_memory_refusal / C20_no_std_accepts_what_std_allocates / C20_jit_flags_agree over both cfg twins of '
             'JitMemory::new and of every jit_compile (regenerated): same buffer size, same passes, the no_std build refuses caller memory exactly when too short or not '
-            'page-aligned, every VM kind compiles with the same prologue flags in both builds. The models of C01/C02/C05/C06/C17 are regenerated from source regions checked on every run to contain no code '
+            'page-aligned, every VM kind compiles with the same prologue flags in both builds; C20_api_effects_agree: the state-changing API methods have the same effect lists in both builds, '
+            'except that the no_std jit_compile takes the caller\'s executable memory, after the check that a program is loaded. The models of C01/C02/C05/C06/C17 are regenerated from source regions checked on every run to contain no code '
             'selected by the std feature, so their theorems describe both builds; the rest of the cfg-dependent glue is compared by running a default build and a '
             '--no-default-features build of the harness on the corpora of C01/C03/C06/C13-C15 (JIT from caller-supplied executable memory) and requiring '
             'identical transcripts.',
